@@ -45,12 +45,39 @@ pub fn assemble_dc_opts(
     s.push_str(extra_imports);
     if local {
         g.label("local-scope-with-decoys");
-        // decoys outside with the same names
+        // a prefix of the declarations (they only refer to earlier ones) stays at module level:
+        // local declarations then reach outer ones through `extends` / references
+        let mut n_outer = g.c.len(g.decls.len());
+        // merged declarations of one name must stay in one scope (an inner one would shadow, not merge)
+        let decl_name = |t: &str| t.trim_start_matches("export ").split_whitespace().nth(1).unwrap_or("").trim_end_matches('=').to_string();
+        while n_outer < g.decls.len()
+            && g.decls[n_outer..].iter().any(|d| g.decls[..n_outer].iter().any(|o| decl_name(&o.text) == decl_name(&d.text)))
+        {
+            n_outer += 1;
+        }
+        let outer: Vec<(String, bool)> = g.decls[..n_outer].iter().map(|d| (d.text.clone(), d.after)).collect();
+        if n_outer > 0 && n_outer < g.decls.len() {
+            g.label("local-declarations-refer-to-outer-scope");
+        }
+        let inner_decls: Vec<(String, bool)> = g.decls[n_outer..].iter().map(|d| (d.text.clone(), d.after)).collect();
+        let before: Vec<String> = inner_decls.iter().filter(|d| !d.1).map(|d| d.0.clone()).collect();
+        let after: Vec<String> = inner_decls.iter().filter(|d| d.1).map(|d| d.0.clone()).collect();
+        for (t, a) in &outer {
+            if !*a {
+                s.push_str(t);
+                s.push('\n');
+            }
+        }
+        // decoys outside with the same names as the local declarations
+        let outer_names: Vec<String> = outer
+            .iter()
+            .map(|(t, _)| t.trim_start_matches("export ").split_whitespace().nth(1).unwrap_or("").trim_end_matches('=').to_string())
+            .collect();
         let mut names: Vec<String> = vec![];
-        for d in &g.decls {
+        for d in &g.decls[n_outer..] {
             let t = d.text.trim_start_matches("export ");
             let name = t.split_whitespace().nth(1).unwrap_or("").trim_end_matches('=').to_string();
-            if !name.is_empty() && !names.contains(&name) {
+            if !name.is_empty() && !names.contains(&name) && !outer_names.contains(&name) {
                 names.push(name);
             }
         }
@@ -66,6 +93,12 @@ pub fn assemble_dc_opts(
             s.push_str(&format!("  {}\n", d.trim_start_matches("export ")));
         }
         s.push_str("  return r;\n};\n");
+        for (t, a) in &outer {
+            if *a {
+                s.push_str(t);
+                s.push('\n');
+            }
+        }
     } else {
         for d in &before {
             s.push_str(d);
